@@ -9,37 +9,61 @@ variable {src : List Nat} {K : Bool × Nat}
 
 theorem consumeClassEscape_wb (hsrc : ∀ x ∈ src, x ≤ 0xFFFF) (n : Nat) (r : List Nat) (s : St) (h : BAt src K r s) :
     Wp (consumeClassEscape n s) (fun b s1 => KeepN s s1 ∧
-      if b = true then ∃ r1 v, BAt src K r1 s1 ∧ RxSpecB.ClassEscape K.1 r r1 v ∧ IntIs s1 v else BAt src K r s1) := by
+      if b = true then ∃ r1 v, BAt src K r1 s1 ∧ RxSpecB.ClassEscape K.1 r r1 v ∧ IntIs s1 v
+      else BAt src K r s1 ∧ (¬∃ r1 v, RxSpecB.CharacterEscape K.1 r r1 v) ∧
+        ¬∃ l r', r = c 'c' :: l :: r' ∧ RxSpecB.ClassControlLetter l) := by
   unfold consumeClassEscape
   rcases r with _ | ⟨x, _ | ⟨y, r'⟩⟩
   all_goals rx6_auto
-  all_goals (try rx6_false)
   all_goals (try (rx6_true; exact ⟨_, some 8, by rx6_at, RxSpecB.ClassEscape.b _, rfl⟩))
   all_goals (try (
     rx6_true
     exact ⟨_, none, ‹BAt src K _ _›, RxSpecB.ClassEscape.characterClass _ _ ‹RxSpecB.CharacterClassEscape _ _›, ‹_ = -1›⟩))
-  all_goals (try (
+  case pos =>
+    rename_i hne hc d0 d hd hcd hat1 hat2
+    have hd' : y = d := by simpa using hd
+    subst hd'
+    have hx : x = ch 'c' := by
+      have := (Bool.and_eq_true _ _).mp hc
+      simpa using this.2
+    subst hx
+    rx6_true
+    refine ⟨r', some (y % 32), by rx6_at, RxSpecB.ClassEscape.classControl y r' ?_, ?_⟩
+    · rcases (Bool.or_eq_true _ _).mp hcd with h1 | h1
+      · exact .inl (decimalDigit_of_isAsciiDigit h1)
+      · exact .inr (by simpa using h1)
+    · show _ = ((y % 32 : Nat) : Int)
+      st_norm; omega
+  all_goals (
     rename_i b s2 hk2 hb
     refine ⟨by rx6_keep, ?_⟩
     cases b
-    · rw [if_neg (by decide)] at hb ⊢; exact hb
+    · rw [if_neg (by decide)] at hb ⊢
+      refine ⟨hb.1, hb.2, ?_⟩
+      rintro ⟨l, r'', e, hl⟩
+      first
+      | (cases e; done)
+      | (-- the first unit is not `c`
+         have hx := (List.cons.inj e).1
+         subst hx
+         have hn := ‹¬(!s.strict && !s.uFlag && some (c 'c') == some (ch 'c')) = true›
+         rw [h.strict', h.uFlag'] at hn
+         exact hn rfl)
+      | (-- `c` is not followed by a digit or `_`
+         have hy := (List.cons.inj (List.cons.inj e).2).1
+         subst hy
+         have hd := ‹(_ :: _ :: _)[1]? = some _›
+         have hd' : _ = _ := Option.some.inj hd
+         subst hd'
+         have hn := ‹¬(isAsciiDigit _ || _ == ch '_') = true›
+         apply hn
+         rcases hl with hl | hl
+         · rw [isAsciiDigit_of_decimalDigit hl]; rfl
+         · rw [hl]; simp)
     · rw [if_pos rfl] at hb ⊢
       obtain ⟨r1, v, hat, hce, hv⟩ := hb
-      exact ⟨r1, some v, hat, RxSpecB.ClassEscape.character _ r1 v hce, hv⟩))
-  rename_i hne hc d0 d hd hcd hat1 hat2
-  have hd' : y = d := by simpa using hd
-  subst hd'
-  have hx : x = ch 'c' := by
-    have := (Bool.and_eq_true _ _).mp hc
-    simpa using this.2
-  subst hx
-  rx6_true
-  refine ⟨r', some (y % 32), by rx6_at, RxSpecB.ClassEscape.classControl y r' ?_, ?_⟩
-  · rcases (Bool.or_eq_true _ _).mp hcd with h1 | h1
-    · exact .inl (decimalDigit_of_isAsciiDigit h1)
-    · exact .inr (by simpa using h1)
-  · show _ = ((y % 32 : Nat) : Int)
-    st_norm; omega
+      exact ⟨r1, some v, hat, RxSpecB.ClassEscape.character _ r1 v hce ‹_ ≠ some (ch 'b')›
+        ‹¬∃ r', RxSpecB.CharacterClassEscape _ r'›, hv⟩)
 
 theorem consumeClassAtom_wb (hsrc : ∀ x ∈ src, x ≤ 0xFFFF) (n : Nat) (r : List Nat) (s : St) (h : BAt src K r s) :
     Wp (consumeClassAtom n s) (fun b s1 => KeepN s s1 ∧
@@ -48,13 +72,20 @@ theorem consumeClassAtom_wb (hsrc : ∀ x ∈ src, x ≤ 0xFFFF) (n : Nat) (r : 
   rx6_auto
   all_goals (try rx6_false)
   · -- `\` [lookahead = c]
-    rename_i hn s1 hk y r' hat1 hat2 hc
+    rename_i hn s1 hk y r' hat1 hat2 hnce hncc hc
     have hy : y = ch 'c' := by
       have := (Bool.and_eq_true _ _).mp hc
       simpa using this.2
     subst hy
     rx6_true
-    exact ⟨_, some (c '\\'), by rx6_at, RxSpecB.ClassAtom.noDash _ _ _ (RxSpecB.ClassAtomNoDash.backslashC r'), rfl⟩
+    refine ⟨_, some (c '\\'), by rx6_at, RxSpecB.ClassAtom.noDash _ _ _ (RxSpecB.ClassAtomNoDash.backslashC r' ?_), rfl⟩
+    intro l hl
+    cases r' with
+    | nil => cases hl
+    | cons l' r'' =>
+      cases hl
+      exact ⟨fun hcl => hncc ⟨l, r'', rfl, hcl⟩,
+        fun hcl => hnce ⟨r'', l % 32, RxSpecB.CharacterEscape.controlLetter l r'' hcl⟩⟩
   · rename_i hc
     have := (Bool.and_eq_true _ _).mp hc
     exact absurd this.2 (by decide)
